@@ -122,6 +122,7 @@ def coproc_task(task):
         st['sys']['CPACR'] = limbs(cpacr)
         st['sys']['NSACR'] = limbs(rnd.getrandbits(14) | (rnd.getrandbits(3) << 16))
         st['sys']['HCPTR'] = limbs(rnd.getrandbits(14) if rnd.random() < 0.3 else 0)
+        st['sys']['HSTR'] = limbs((rnd.getrandbits(16) & ~(1 << 14)) if rnd.random() < 0.35 else 0)      # HSTR.T<CRn>: CP15 accesses trapped to Hyp
         for r in st['R']:
             if r != 'PC' and rnd.random() < 0.6:
                 st['R'][r] = limbs(rnd.randrange(8, 56) * 4)
